@@ -150,6 +150,19 @@ public:
 		mLast = nullptr;
 	}
 
+	/// <summary>
+	/// Makes own copy of string key (the view which is received from reader is valid only until next reading).
+	/// </summary>
+	void PersistStringView()
+	{
+		if (auto& view = std::get<std::string_view>(mTuple); mLast == &view)
+		{
+			auto& str = std::get<std::string>(mTuple);
+			str.assign(view);
+			view = str;
+		}
+	}
+
 private:
 	TTuple mTuple;
 	void* mLast = nullptr;
@@ -802,7 +815,10 @@ public:
 	{
 		if (FindValueByKey(key))
 		{
-			if (size_t sz = 0; mMsgPackReader->ReadArraySize(sz)) {
+			if (size_t sz = 0; mMsgPackReader->ReadArraySize(sz))
+			{
+				// The current key is a part of path for nested scopes
+				mCurrentKey.PersistStringView();
 				return std::make_optional<CMsgPackReadArrayScope<TReader>>(sz, mMsgPackReader, GetContext(), this);
 			}
 			OnFinishChildScope();
@@ -815,7 +831,10 @@ public:
 	{
 		if (FindValueByKey(key))
 		{
-			if (size_t sz = 0; mMsgPackReader->ReadMapSize(sz)) {
+			if (size_t sz = 0; mMsgPackReader->ReadMapSize(sz))
+			{
+				// The current key is a part of path for nested scopes
+				mCurrentKey.PersistStringView();
 				return std::make_optional<CMsgPackReadObjectScope<TReader>>(sz, mMsgPackReader, GetContext(), this);
 			}
 			OnFinishChildScope();
@@ -832,7 +851,10 @@ public:
 			if (mMsgPackReader->ReadValueType() != ValueType::BinaryArray) {
 				return std::nullopt;
 			}
-			if (size_t sz = 0; mMsgPackReader->ReadBinarySize(sz)) {
+			if (size_t sz = 0; mMsgPackReader->ReadBinarySize(sz))
+			{
+				// The current key is a part of path for nested scopes
+				mCurrentKey.PersistStringView();
 				return std::make_optional<CMsgPackReadBinaryScope<TReader>>(sz, mMsgPackReader, GetContext(), this);
 			}
 			OnFinishChildScope();
